@@ -1,1 +1,247 @@
-From V.Sys Require Import Preflight PreflightProofs.
+(* C14 - Batch provers admit exactly the batches the circuit can prove.
+
+   Model: Sys/Preflight.v (hand-written after PrivateBatchProver::commit, ensure_leaf_batch_compatible,
+   preflight_private_batch_proofs, ensure_private_batch_compatible; tied to the implementation by the differential run of
+   harness/src/bin/provers.rs against the REAL provers).  Proofs: Sys/PreflightProofs.v.
+
+   "The circuit can prove this batch" is LeanPort.priv_compat / LeanPort.pub_compat (what C07 / C13 show the wrapper
+   circuits to be satisfiable for).  A child proof is (public inputs, verifies?).  [padded n ms t] = the supplied
+   statements followed by n - |ms| copies of the padding template; commit then shuffles, so the private theorems quantify
+   over every permutation of the padded batch.
+
+   FINDING (fixed): before the `fix:` commit recorded in /verif/known_findings.json, ensure_leaf_batch_compatible had no
+   grouped-exit-sum pass.  [C14_private_accept_refuted_without_sum_check] keeps the refutation of C14_private_accept_sound
+   for that earlier function (same model minus [sum_check]); the theorems below are about the repaired code and carry no
+   extra premise. *)
+From Coq Require Import Permutation.
+From V.Base Require Import Common.
+From V.Generated Require Import Constants.
+From V.Circ Require Import Field PrivateBatch PublicBatch.
+From V.Spec Require Import LeanPort.
+From V.Sys Require Import Parsers ParsersProofs Preflight PreflightProofs.
+Ltac Zify.zify_post_hook ::= Z.div_mod_to_equations.
+
+Local Open Scope Z_scope.
+
+(* ---------------------------------------------------------------- constants of the property text, pinned to /repo *)
+Lemma C14_pin_leaf_pi_len : PR_LEAF_PI_LEN = 21. Proof. reflexivity. Qed.
+Lemma C14_pin_leaf_offsets :
+  [PR_ASSET_ID_START; PR_OUTPUT_AMOUNT_1_START; PR_OUTPUT_AMOUNT_2_START; PR_VOLUME_FEE_BPS_START; PR_NULLIFIER_START;
+   PR_EXIT_1_START; PR_EXIT_2_START; PR_BLOCK_HASH_START; PR_BLOCK_NUMBER_START] = [0; 1; 2; 3; 4; 8; 12; 16; 20].
+Proof. reflexivity. Qed.
+Lemma C14_pin_inner_offsets :
+  [PR_OUT_ASSET_ID_OFFSET; PR_OUT_VOLUME_FEE_BPS_OFFSET; PR_OUT_BLOCK_HASH_OFFSET] = [1; 2; 3].
+Proof. reflexivity. Qed.
+Lemma C14_pin_two32 : two32 = 2 ^ 32. Proof. reflexivity. Qed.
+
+(* ---------------------------------------------------------------- the specification vocabulary, spelled out *)
+Lemma C14_spec_padded n ms t : padded n ms t = ms ++ repeat t (Z.to_nat (n - zlen ms)).
+Proof. reflexivity. Qed.
+(* priv_compat, read order-independently: [total k l] is what the batch pays account k after the circuit's dummy masking *)
+Lemma C14_spec_priv_compat l :
+  priv_compat l = true <->
+  (exists A, forall m, In m l -> lf_asset m = A) /\
+  (exists bh fee, forall m, In m l -> is_real_pb m = true -> lf_bh m = bh /\ lf_fee m = fee) /\
+  NoDup (map lf_null (filter is_real_pb l)) /\
+  (forall k, total k l < two32).
+Proof. exact (priv_compat_iff l). Qed.
+Lemma C14_spec_total k m r :
+  total k [] = 0 /\
+  total k (m :: r) =
+    (if is_dummy_pb m then 0
+     else (if list_eqb (lf_exit1 m) k then lf_out1 m else 0) + (if list_eqb (lf_exit2 m) k then lf_out2 m else 0))
+    + total k r.
+Proof. split; reflexivity. Qed.
+Lemma C14_spec_pub_compat l :
+  pub_compat l = true <->
+  exists a f bh, forall m, In m l -> is_real_inner m = true -> in_asset m = a /\ in_fee m = f /\ in_bh m = bh.
+Proof. exact (pub_compat_iff l). Qed.
+(* a validated leaf template is a dummy with the native asset (C16 has the full statement) *)
+Lemma C14_spec_template t : leaf_template_check t = Ok tt -> is_dummy_pb (c_pis t) = true /\ lf_asset (c_pis t) = 0.
+Proof. exact (leaf_template_sentinel t). Qed.
+Lemma C14_spec_private_batch_template t : private_batch_template_check t = Ok tt -> is_dummy_inner (c_pis t) = true.
+Proof. exact (private_batch_template_sentinel t). Qed.
+
+(* ---------------------------------------------------------------- private batch *)
+
+(* commit accepts only if: non-empty, within the batch size, every proof has 21 public inputs and verifies, when padding is
+   needed every asset id is 0, and some proof is real *)
+Theorem C14_private_accept_only_if : forall n cs,
+  private_commit_preflight n cs = Ok tt ->
+  0 < zlen cs <= n /\
+  (forall c, In c cs -> zlen (c_pis c) = 21 /\ c_ok c = true /\ (zlen cs < n -> lf_asset (c_pis c) = 0)) /\
+  (exists c, In c cs /\ is_real_pb (c_pis c) = true).
+Proof.
+  intros n cs H. apply private_preflight_ok_iff in H. destruct H as (R & HC & (_ & _ & _ & (m & Im & Rm)) & _).
+  split; [exact R|]. split; [exact HC|]. apply in_map_iff in Im. destruct Im as (c & <- & I). exists c. auto.
+Qed.
+
+(* whenever commit accepts, the circuit can prove the padded batch in EVERY order (no premise on the leaves is needed) *)
+Theorem C14_private_accept_sound : forall n cs t leaves,
+  private_commit_preflight n cs = Ok tt ->
+  leaf_template_check t = Ok tt ->
+  Permutation leaves (padded n (map c_pis cs) (c_pis t)) ->
+  priv_compat leaves = true.
+Proof.
+  intros n cs t leaves H T P. apply priv_compat_iff. apply (compat_spec_perm _ _ (Permutation_sym P)).
+  apply private_accept_compat_spec; [exact H|apply leaf_template_sentinel; exact T].
+Qed.
+
+(* whenever commit rejects for a reason other than the documented policies, the padded batch is unprovable in every order *)
+Theorem C14_private_reject_complete : forall n cs t leaves k,
+  private_commit_preflight n cs = Err k ->
+  k <> E_EMPTY -> k <> E_TOO_MANY -> k <> E_PI_LEN -> k <> E_INVALID -> k <> E_PAD_ASSET -> k <> E_ALL_DUMMY ->
+  leaf_template_check t = Ok tt ->
+  Permutation leaves (padded n (map c_pis cs) (c_pis t)) ->
+  priv_compat leaves = false.
+Proof.
+  intros n cs t leaves k H N1 N2 N3 N4 N5 N6 T P.
+  destruct (priv_compat leaves) eqn:E; [|reflexivity]. exfalso.
+  apply priv_compat_iff in E. apply (compat_spec_perm _ _ P) in E.
+  apply (private_reject_not_compat n cs (c_pis t) k H N1 N2 N3 N4 N5 N6 (leaf_template_sentinel t T) E).
+Qed.
+
+(* ... and so is a batch refused by the padding-asset policy (the policy is not stricter than the circuit) *)
+Theorem C14_private_padding_asset_unprovable : forall n cs t leaves,
+  private_commit_preflight n cs = Err E_PAD_ASSET ->
+  leaf_template_check t = Ok tt ->
+  Permutation leaves (padded n (map c_pis cs) (c_pis t)) ->
+  priv_compat leaves = false.
+Proof.
+  intros n cs t leaves H T P.
+  destruct (priv_compat leaves) eqn:E; [|reflexivity]. exfalso.
+  apply priv_compat_iff in E. apply (compat_spec_perm _ _ P) in E.
+  apply (private_padding_asset_not_compat n cs (c_pis t) H (leaf_template_sentinel t T) E).
+Qed.
+
+(* exactness in one statement: commit = shape /\ cryptography /\ "some real proof" /\ the circuit can prove the padded batch *)
+Theorem C14_private_accept_iff : forall n cs t,
+  leaf_template_check t = Ok tt ->
+  (private_commit_preflight n cs = Ok tt <->
+   0 < zlen cs <= n /\
+   (forall c, In c cs -> zlen (c_pis c) = 21 /\ c_ok c = true) /\
+   (exists c, In c cs /\ is_real_pb (c_pis c) = true) /\
+   priv_compat (padded n (map c_pis cs) (c_pis t)) = true).
+Proof. intros n cs t T. apply private_accept_iff. apply leaf_template_sentinel. exact T. Qed.
+
+(* ---------------------------------------------------------------- public batch *)
+Theorem C14_public_accept_only_if : forall m pi_len cs,
+  public_preflight m pi_len cs = Ok tt ->
+  0 < zlen cs <= m /\
+  (forall c, In c cs -> zlen (c_pis c) = pi_len /\ c_ok c = true) /\
+  (exists c, In c cs /\ is_real_inner (c_pis c) = true).
+Proof.
+  intros m pi_len cs H. apply public_preflight_ok_iff in H. destruct H as (R & HC & _ & (x & Ix & Rx)).
+  split; [exact R|]. split; [exact HC|]. apply in_map_iff in Ix. destruct Ix as (c & <- & I). exists c. auto.
+Qed.
+
+Theorem C14_public_accept_sound : forall m pi_len cs t inners,
+  public_preflight m pi_len cs = Ok tt ->
+  private_batch_template_check t = Ok tt ->
+  Permutation inners (padded m (map c_pis cs) (c_pis t)) ->
+  pub_compat inners = true.
+Proof.
+  intros m pi_len cs t inners H T P. rewrite (pub_compat_perm _ _ P).
+  apply (public_accept_iff m pi_len cs (c_pis t) (private_batch_template_sentinel t T)). exact H.
+Qed.
+
+Theorem C14_public_reject_complete : forall m pi_len cs t inners k,
+  public_preflight m pi_len cs = Err k ->
+  k <> E_EMPTY -> k <> E_TOO_MANY -> k <> E_PI_LEN -> k <> E_INVALID -> k <> E_ALL_DUMMY ->
+  private_batch_template_check t = Ok tt ->
+  Permutation inners (padded m (map c_pis cs) (c_pis t)) ->
+  pub_compat inners = false.
+Proof.
+  intros m pi_len cs t inners k H N1 N2 N3 N4 N5 T P. rewrite (pub_compat_perm _ _ P).
+  destruct (pub_compat (padded m (map c_pis cs) (c_pis t))) eqn:E; [|reflexivity]. exfalso.
+  apply pub_compat_iff in E.
+  apply (public_reject_not_compat m pi_len cs (c_pis t) k H N1 N2 N3 N4 N5 (private_batch_template_sentinel t T) E).
+Qed.
+
+Theorem C14_public_accept_iff : forall m pi_len cs t,
+  private_batch_template_check t = Ok tt ->
+  (public_preflight m pi_len cs = Ok tt <->
+   0 < zlen cs <= m /\
+   (forall c, In c cs -> zlen (c_pis c) = pi_len /\ c_ok c = true) /\
+   (exists c, In c cs /\ is_real_inner (c_pis c) = true) /\
+   pub_compat (padded m (map c_pis cs) (c_pis t)) = true).
+Proof. intros m pi_len cs t T. apply public_accept_iff. apply private_batch_template_sentinel. exact T. Qed.
+
+(* ---------------------------------------------------------------- order of the checks (as the code has it) *)
+(* counts first; a compatibility class is only ever reported for a vector whose every proof has the right shape, verifies
+   and passes the padding-asset policy (verification before compatibility); the sum class only when all other
+   compatibility rules already hold *)
+Theorem C14_order_of_checks : forall n cs,
+  (zlen cs = 0 -> private_commit_preflight n cs = Err E_EMPTY) /\
+  (0 < zlen cs -> n < zlen cs -> private_commit_preflight n cs = Err E_TOO_MANY) /\
+  (forall k, private_commit_preflight n cs = Err k ->
+     k = E_ASSET \/ k = E_BLOCK \/ k = E_FEE \/ k = E_DUP_NULL \/ k = E_ALL_DUMMY \/ k = E_SUM ->
+     0 < zlen cs <= n /\
+     forall c, In c cs -> zlen (c_pis c) = 21 /\ c_ok c = true /\ (zlen cs < n -> lf_asset (c_pis c) = 0)) /\
+  (forall k, private_commit_preflight n cs = Err k -> k = E_SUM ->
+     (exists A, forall m, In m (map c_pis cs) -> lf_asset m = A) /\
+     (exists bh fee, forall m, In m (map c_pis cs) -> is_real_pb m = true -> lf_bh m = bh /\ lf_fee m = fee) /\
+     NoDup (map lf_null (filter is_real_pb (map c_pis cs))) /\
+     (exists m, In m (map c_pis cs) /\ is_real_pb m = true)).
+Proof. exact private_order. Qed.
+
+Theorem C14_public_order_of_checks : forall m pi_len cs,
+  (zlen cs = 0 -> public_preflight m pi_len cs = Err E_EMPTY) /\
+  (0 < zlen cs -> m < zlen cs -> public_preflight m pi_len cs = Err E_TOO_MANY) /\
+  (forall k, public_preflight m pi_len cs = Err k -> k = E_BLOCK \/ k = E_ASSET \/ k = E_FEE \/ k = E_ALL_DUMMY ->
+     0 < zlen cs <= m /\ forall c, In c cs -> zlen (c_pis c) = pi_len /\ c_ok c = true).
+Proof. exact public_order. Qed.
+
+(* ---------------------------------------------------------------- the finding, kept as a theorem *)
+(* without the grouped-sum pass (the code before the fix) commit accepts two valid real leaves that pay 2^31 each to one
+   account; the padded batch is not provable; the repaired preflight rejects it with the sum class *)
+Theorem C14_private_accept_refuted_without_sum_check :
+  exists n cs t,
+    private_commit_preflight_nosum n cs = Ok tt /\
+    leaf_template_check t = Ok tt /\
+    (forall c, In c cs -> leaf_wf (c_pis c)) /\
+    priv_compat (padded n (map c_pis cs) (c_pis t)) = false /\
+    private_commit_preflight n cs = Err E_SUM.
+Proof.
+  exists 2, f1_batch, (mkChild (repeat 0 21) true).
+  split; [vm_compute; reflexivity|]. split; [vm_compute; reflexivity|]. split.
+  - intros c [<-|[<-|[]]]; (split; [reflexivity|]); (split; [|split; vm_compute; reflexivity]);
+      cbn [c_pis f1_leaf app]; repeat (constructor; [unfold Field.canon, p; lia|]); constructor.
+  - split; vm_compute; reflexivity.
+Qed.
+
+(* ---------------------------------------------------------------- non-vacuity *)
+Definition ex_leaf (nullifier out1 : Z) (acct : list Z) : list Z :=
+  [0; out1; 0; 10] ++ [nullifier; 0; 0; 0] ++ acct ++ [0; 0; 0; 0] ++ [9; 0; 0; 0] ++ [3].
+Definition ex_template : child := mkChild ([0; 0; 0; 10] ++ [77; 0; 0; 0] ++ repeat 0 12 ++ [5]) true.
+
+(* accepted: one real leaf padded to n = 3; two real leaves paying 2^31 - 1 and 2^31 to one account (sum 2^32 - 1) *)
+Example C14_ex_accept :
+  leaf_template_check ex_template = Ok tt /\
+  private_commit_preflight 3 [mkChild (ex_leaf 1 5 [5; 6; 7; 8]) true] = Ok tt /\
+  private_commit_preflight 2 [mkChild (ex_leaf 1 2147483647 [5; 6; 7; 8]) true; mkChild (ex_leaf 2 2147483648 [5; 6; 7; 8]) true] = Ok tt.
+Proof. vm_compute. repeat split. Qed.
+(* rejected, one per class *)
+Example C14_ex_reject :
+  private_commit_preflight 2 [] = Err E_EMPTY /\
+  private_commit_preflight 1 [mkChild (ex_leaf 1 5 [5; 6; 7; 8]) true; mkChild (ex_leaf 2 5 [5; 6; 7; 8]) true] = Err E_TOO_MANY /\
+  private_commit_preflight 1 [mkChild [0] true] = Err E_PI_LEN /\
+  private_commit_preflight 1 [mkChild (ex_leaf 1 5 [5; 6; 7; 8]) false] = Err E_INVALID /\
+  private_commit_preflight 2 [mkChild (7 :: tl (ex_leaf 1 5 [5; 6; 7; 8])) true] = Err E_PAD_ASSET /\
+  private_commit_preflight 2 [mkChild (ex_leaf 1 5 [5; 6; 7; 8]) true; mkChild (7 :: tl (ex_leaf 2 5 [5; 6; 7; 8])) true] = Err E_ASSET /\
+  private_commit_preflight 2 [mkChild (ex_leaf 1 5 [5; 6; 7; 8]) true; mkChild (ex_leaf 1 6 [1; 1; 1; 1]) true] = Err E_DUP_NULL /\
+  private_commit_preflight 2 [mkChild (c_pis ex_template) true] = Err E_ALL_DUMMY /\
+  private_commit_preflight 2 [mkChild (ex_leaf 1 2147483648 [5; 6; 7; 8]) true; mkChild (ex_leaf 2 2147483648 [5; 6; 7; 8]) true] = Err E_SUM /\
+  (* a real leaf paying the ZERO account is grouped with the masked dummy slots, and still counted *)
+  private_commit_preflight 3 [mkChild (ex_leaf 1 2147483648 [0; 0; 0; 0]) true; mkChild (ex_leaf 2 2147483648 [0; 0; 0; 0]) true] = Err E_SUM.
+Proof. vm_compute. repeat split. Qed.
+Example C14_ex_public :
+  let inner (bh asset fee : Z) := [2; asset; fee; bh; 0; 0; 0; 4] ++ repeat 0 21 in
+  private_batch_template_check (mkChild (inner 0 0 0) true) = Ok tt /\
+  public_preflight 2 29 [mkChild (inner 9 0 10) true] = Ok tt /\
+  public_preflight 2 29 [mkChild (inner 9 0 10) true; mkChild (inner 8 0 10) true] = Err E_BLOCK /\
+  public_preflight 2 29 [mkChild (inner 9 0 10) true; mkChild (inner 9 1 10) true] = Err E_ASSET /\
+  public_preflight 2 29 [mkChild (inner 9 0 10) true; mkChild (inner 9 0 11) true] = Err E_FEE /\
+  public_preflight 2 29 [mkChild (inner 0 0 0) true] = Err E_ALL_DUMMY /\
+  public_preflight 2 29 [mkChild (inner 9 0 10) false] = Err E_INVALID.
+Proof. vm_compute. repeat split. Qed.
